@@ -281,7 +281,13 @@ L_POOL = [('x', 'xs'), ('x', 'range(2)'), ('x', 'ys[1:]'), ('x', '[a, 1 / 3]'), 
           ('(x, y)', 'zip(xs, xs[:])')]
 I_POOL = ['0', '1', 'len(ys) - 1']
 C_POOL = ['fp.REAL', 'C0', 'fp.MPFixedContext(-2, fp.RM.RTZ)', 'fp.MPFloatContext((1 / 3) * 9 - 1, fp.RM.RAZ)',
-          'fp.IEEEContext(3, len(ys) + 4, fp.RM.RNE)']
+          'fp.IEEEContext(3, len(ys) + 4, fp.RM.RNE)',
+          # keyword-only, mixed and non-call spellings with computed (inexact under a narrow context) arguments
+          'fp.MPFloatContext(pmax=(1 / 3) * 9 - 1, rm=fp.RM.RAZ)',
+          'fp.IEEEContext(3, nbits=(1 / 3) * 9 + 3, rm=fp.RM.RTZ)',
+          'fp.MPFixedContext(nmin=-(1 / 3) * 9 + 1)',
+          'fp.MPFloatContext(pmax=len(ys) + 6)',
+          '(fp.MPFloatContext(pmax=2) if (1 / 3) * 3 == 1 else fp.REAL)']
 ALIAS_POOL = ['ys = xs', 'ys = xs[:]', 'xs = ys', 'ys = [t for t in xs]']
 # indexed assignment: plainly, through a row of a list of lists (rows are shared), read-modify-write
 IDX_POOL = ['ys[{i}] = {n}', 'zs = [ys, xs]\nzs[0][{i}] = {n}', 'ys[{i}] = ys[{i}] + {n}']
@@ -537,4 +543,48 @@ def callgraphs():
                    f'    r = u / 3\n    return (p, t, r, zs)\n')
             label = 'f:%s g:%s h:%s wf:%s wg:%s' % tuple('-' if x is None else 'C' for x in (cf, cg, ch, wf, wg))
             yield f'df{k}', label, src
+            k += 1
+
+
+# ---------------------------------------------------------------------------
+# Context expressions: every spelling x every kind of narrow ambient context
+
+CTX_EXPRS = [
+    'fp.MPFloatContext(9)', 'fp.MPFloatContext(p + 5)', 'fp.MPFloatContext(pmax=p + 5)',
+    'fp.MPFloatContext(pmax=p + 5, rm=fp.RM.RTZ)', 'fp.MPFloatContext(p + 5, rm=fp.RM.RTZ)',
+    'fp.IEEEContext(es=3, nbits=p + 5)', 'fp.IEEEContext(3, nbits=(1 / 3) * 9 + 6)',
+    'fp.MPFixedContext(nmin=-(p + 5))', 'fp.MPFixedContext(-(1 / 3) * 27)',
+    '(fp.MPFloatContext(pmax=9) if (1 / 3) * 3 == 1 else fp.MPFloatContext(pmax=2))',
+    '(fp.MPFloatContext(9) if p + 5 == 9 else fp.REAL)',
+]
+NARROW = 'fp.MPFloatContext(3)'
+
+
+def ctxexprs():
+    """yields (entry name, label, source): the context expression evaluated (a) directly under the
+    caller's context, (b) inside an enclosing narrow `with`, (c) in a function with a narrow declared
+    context, (d) in a callee reached from inside a narrow `with`; p = 4 is computed at run time"""
+    k = 0
+    for ce in CTX_EXPRS:
+        body = (f'    with {ce} as c:\n        y = fp.round(x)\n        z = x / 3\n'
+                f'    return (y, z, x / 3)\n')
+        for amb in ('caller', 'with', 'declared', 'callee'):
+            if amb == 'caller':
+                src = f'@fp.fpy\ndef cx{k}(u, v, us):\n    x = 1 + u / 256\n    p = len(us) + 1\n' + body
+            elif amb == 'with':
+                src = (f'@fp.fpy\ndef cx{k}(u, v, us):\n    x = 1 + u / 256\n    p = len(us) + 1\n'
+                       f'    with {NARROW}:\n        with {ce} as c:\n            y = fp.round(x)\n            z = x / 3\n'
+                       f'        w = x / 3\n    return (y, z, w, x / 3)\n')
+            elif amb == 'declared':
+                src = (f'@fp.fpy(ctx={NARROW})\ndef cy{k}(x, p):\n' + body +
+                       f'\n@fp.fpy\ndef cx{k}(u, v, us):\n    x = 1 + u / 256\n'
+                       f'    return cy{k}(x, len(us) + 1)\n')
+            else:
+                src = (f'@fp.fpy\ndef cy{k}(x, p):\n' + body +
+                       f'\n@fp.fpy\ndef cx{k}(u, v, us):\n    x = 1 + u / 256\n'
+                       f'    with {NARROW}:\n        t = cy{k}(x, len(us) + 1)\n    return (t, x / 3)\n')
+            form = ('ifexp' if ' if ' in ce else 'literal' if ce == 'fp.MPFloatContext(9)' else
+                    'mixed' if '=' in ce and not ce.split('(', 1)[1].lstrip().split(',')[0].count('=') else
+                    'keyword' if '=' in ce else 'positional')
+            yield f'cx{k}', f'ctxexpr/{amb}/{form}', src
             k += 1
